@@ -259,24 +259,37 @@ fn check_prog_(p: &Prog, seed: u64, tier: Tier, st: &mut Stats, dual_normals: bo
                 let inputs: HashMap<Var, D> = [(Var::X, mk(q.x, 0)), (Var::Y, mk(q.y, 1)), (Var::Z, mk(q.z, 2))].into_iter().collect();
                 let (mut g, mut skip) = dual::eval_graph_dual(&b.ctx, &order, &inputs)[&root];
                 if !dual_normals {
-                    // reference: interpreter gradient evaluator, original shape
+                    // reference: the gradient evaluator of the backend that
+                    // rendered, on the original (unsimplified) shape. (What a
+                    // gradient evaluator returns is C05's business; where the
+                    // value or an intermediate is infinite the two backends
+                    // legitimately differ - 2*f at f = -inf has derivative 0
+                    // in the interpreter and -inf*0 = NaN in the JIT's product
+                    // rule - so the render is compared with its own backend.)
                     use fidget_core::types::Grad;
-                    let gs = Shape::<VmFunction>::new(&b.ctx, root).unwrap();
-                    let gt = gs.grad_slice_tape(Default::default());
-                    let mut gev = Shape::<VmFunction>::new_grad_slice_eval();
-                    let r = gev.eval_with_transform(
-                        &gt,
-                        &[Grad::new(i as f32, 1.0, 0.0, 0.0)],
-                        &[Grad::new(j as f32, 0.0, 1.0, 0.0)],
-                        &[Grad::new(k as f32, 0.0, 0.0, 1.0)],
-                        &m,
-                    );
+                    fn reference<F: Function + MathFunction>(ctx: &Context, root: Node, p: [f32; 3], m: &Matrix4<f32>) -> Option<D> {
+                        let gs = Shape::<F>::new(ctx, root).unwrap();
+                        let gt = gs.grad_slice_tape(Default::default());
+                        let mut gev = Shape::<F>::new_grad_slice_eval();
+                        let o = gev
+                            .eval_with_transform(
+                                &gt,
+                                &[Grad::new(p[0], 1.0, 0.0, 0.0)],
+                                &[Grad::new(p[1], 0.0, 1.0, 0.0)],
+                                &[Grad::new(p[2], 0.0, 0.0, 1.0)],
+                                m,
+                            )
+                            .ok()?;
+                        Some(D { v: o[0].v as f64, d: [o[0].dx as f64, o[0].dy as f64, o[0].dz as f64] })
+                    }
+                    let pos = [i as f32, j as f32, k as f32];
+                    let r = if su.jit { reference::<JitFunction>(&b.ctx, root, pos, &m) } else { reference::<VmFunction>(&b.ctx, root, pos, &m) };
                     match r {
-                        Ok(o) => {
-                            g = D { v: o[0].v as f64, d: [o[0].dx as f64, o[0].dy as f64, o[0].dz as f64] };
-                            skip = !g.d.iter().all(|x| x.is_finite());
+                        Some(r) => {
+                            g = r;
+                            skip = !g.d.iter().all(|x| x.is_finite()) || !g.v.is_finite();
                         }
-                        Err(_) => skip = true,
+                        None => skip = true,
                     }
                 }
                 if skip || m[(3, 0)] != 0.0 || m[(3, 1)] != 0.0 || m[(3, 2)] != 0.0 {
